@@ -379,19 +379,6 @@ def entref_tie(run, model, sm, scases, rng, quick):
                 run.violation("oracle:split(xer)", dict(rp, what="fed as [0,%d)+[%d,%d): %s consumed %d value-equal=%s; one-shot: %s consumed %d" % (s_, s_, sw["n"], rc, total, dereq, sw["rc"], sw["consumed"])))
 
 
-def nul_probe(run, sm):
-    """a reference to the code point 0 in a text body ("&#0;", "&#;", "&#x;"): the library calls abort() (assert(val > 0));
-    the extracted reader has XAbort there.  Each document goes to a process of its own."""
-    for body in (b"a&#0;b", b"&#;", b"&#x;", b"&#x000;"):
-        line = "feed SU xer %s 1*" % (b"<SU>" + body + b"</SU>").hex()
-        rc, out, err = run_lines(sm["exe"], [line], env=SAN_ENV)
-        run.case(line)
-        if rc != 0 and "val > 0" in err:
-            run.known_finding("C05-xer-entref-nul-abort", line)
-        elif rc != 0 or len(out) != 1:
-            run.violation("crash:C05-nul", {"what": "moddrv died (rc=%s)" % rc, "command_line": line, "stderr_tail": err[-1500:]})
-
-
 def main(tier):
     run = Run("C05", tier)
     rng = Rng(run.seed)
@@ -658,7 +645,6 @@ def main(tier):
         if sm.get("exe"):
             skip_tie(run, model, sm, rng_b)
             entref_tie(run, model, sm, scases, rng_s, quick)
-            nul_probe(run, sm)
     except (RuntimeError, BuildError) as e:
         run.violation("build", {"what": str(e)[-2500:]}, no_input=True)
     run.count("second_layer_ext_and_ties_wall_s", int(_time.time() - t_layer))
